@@ -1,6 +1,7 @@
 ------------------------------ MODULE ToolCLIs ------------------------------
 (***************************************************************************)
-(* Control flow of the three small command line programs                   *)
+(* Control flow of the small command line programs                         *)
+(*   BANE    (AegeanTools/CLI/BANE.py)   - background / noise maps         *)
 (*   AeRes   (AegeanTools/CLI/AeRes.py)  - residual / model images         *)
 (*   regroup (AegeanTools/CLI/AeReg.py)  - rescale + regroup a catalogue   *)
 (*   SR6     (AegeanTools/CLI/SR6.py)    - compress / expand maps          *)
@@ -20,7 +21,11 @@ RegroupConfs == [input : {"missing", "ok"}, ratio : BOOLEAN, psfheader : BOOLEAN
 SR6Confs == [noargs : BOOLEAN, cite : BOOLEAN, infile : {"missing", "ok"}, expand : BOOLEAN,
              maskfile : {"none", "missing", "ok"}, factor : BOOLEAN]
 
+BaneConfs == [cite : BOOLEAN, image : {"none", "missing", "ok"}, noclobber : BOOLEAN,
+              existing : {"none", "one", "both"}, compress : BOOLEAN]
+
 Confs(t) == CASE t = "AeRes" -> AeResConfs [] t = "regroup" -> RegroupConfs [] t = "SR6" -> SR6Confs
+              [] t = "BANE" -> BaneConfs
 
 \* ---- AeRes: three required arguments, then one of three arithmetic modes -------------------
 \* mask wins over add; both leave the residual = image + model (the model of the mask mode is NaN/0)
@@ -46,12 +51,20 @@ SR6Outcome(c) ==
              ELSE [rc |-> 0, did |-> {}])
     ELSE [rc |-> 0, did |-> {"compressed", IF c.factor THEN "factor_as_given" ELSE "factor_from_beam"}]
 
+\* ---- BANE: --noclobber refuses only when BOTH outputs are already there ----------------------
+BaneOutcome(c) ==
+    IF c.cite \/ c.image = "none" THEN [rc |-> 0, did |-> {}]
+    ELSE IF c.image = "missing" THEN [rc |-> 1, did |-> {}]
+    ELSE IF c.noclobber /\ c.existing = "both" THEN [rc |-> 1, did |-> {}]
+    ELSE [rc |-> 0, did |-> {"bkg_written", "rms_written"} \cup (IF c.compress THEN {"compressed_maps"} ELSE {"full_size_maps"})]
+
 Outcome(t, c) == CASE t = "AeRes" -> AeResOutcome(c) [] t = "regroup" -> RegroupOutcome(c) [] t = "SR6" -> SR6Outcome(c)
+                   [] t = "BANE" -> BaneOutcome(c)
 
 \* ---- the programs as machines -------------------------------------------------------------
 VARIABLES tool, conf, pc, rc, did
 vars == <<tool, conf, pc, rc, did>>
-Tools == {"AeRes", "regroup", "SR6"}
+Tools == {"AeRes", "regroup", "SR6", "BANE"}
 
 Init == /\ tool \in Tools /\ conf \in Confs(tool)
         /\ pc = "start" /\ rc = -1 /\ did = {}
@@ -84,7 +97,15 @@ S3 == tool = "SR6" /\ pc = "s_mode" /\
             ELSE IF conf.maskfile = "none" THEN Finish({"expanded"}) ELSE Finish({}))
       ELSE Finish({"compressed", IF conf.factor THEN "factor_as_given" ELSE "factor_from_beam"})
 
-Next == A1 \/ A2 \/ A3 \/ A4 \/ A5 \/ R1 \/ R2 \/ R3 \/ R4 \/ S1 \/ S2 \/ S3
+\* BANE
+B1 == tool = "BANE" /\ pc = "start" /\ IF conf.cite THEN Exit(0) ELSE Goto("b_image")
+B2 == tool = "BANE" /\ pc = "b_image" /\ IF conf.image = "none" THEN Exit(0)
+                                         ELSE IF conf.image = "missing" THEN Exit(1) ELSE Goto("b_clobber")
+B3 == tool = "BANE" /\ pc = "b_clobber" /\ IF conf.noclobber /\ conf.existing = "both" THEN Exit(1) ELSE Goto("b_run")
+B4 == tool = "BANE" /\ pc = "b_run" /\ Finish({"bkg_written", "rms_written"}
+                                               \cup (IF conf.compress THEN {"compressed_maps"} ELSE {"full_size_maps"}))
+
+Next == B1 \/ B2 \/ B3 \/ B4 \/ A1 \/ A2 \/ A3 \/ A4 \/ A5 \/ R1 \/ R2 \/ R3 \/ R4 \/ S1 \/ S2 \/ S3
 Spec == Init /\ [][Next]_vars
 
 \* ---- checked facts ------------------------------------------------------------------------
@@ -92,6 +113,9 @@ MachineIsOutcome == pc = "exit" => (rc = Outcome(tool, conf).rc /\ did = Outcome
 FailureDoesNothing == pc = "exit" => (rc = 1 => did = {})
 OneArithmeticMode == pc = "exit" /\ tool = "AeRes" => Cardinality(did \cap {"masked", "added", "subtracted"}) <= 1
 PsfHeaderWins == pc = "exit" /\ tool = "regroup" => ~({"resized_to_psf", "resized_by_ratio"} \subseteq did)
+\* --noclobber with only one of the two maps present overwrites that map
+NoClobberStillOverwrites == \E c \in BaneConfs : c.noclobber /\ c.existing = "one" /\ "bkg_written" \in BaneOutcome(c).did
+ASSUME NoClobberStillOverwrites
 \* an expansion request with an unreadable mask file is reported as success although nothing was written
 SilentNoOutput == \E c \in SR6Confs : ~c.noargs /\ ~c.cite /\ c.infile = "ok" /\ SR6Outcome(c) = [rc |-> 0, did |-> {}]
 ASSUME SilentNoOutput
